@@ -138,6 +138,67 @@ def worker_order(inst, tier):
                                  goal, "step-increment", "running a partition does not advance the step counter by exactly one")]
 
 
+def worker_exec_order(inst, tier):
+    """instance level (concrete schedule, uninterpreted step functions): the compiled rollout executes consecutive steps of every node in
+    sequence order 0,1,2,... and every producer of a window entry strictly before its consumer"""
+    import jax
+    from vlib import cg, fixtures, jx
+
+    nodes, cgr, g = cg.build(inst, node_cls=fixtures.OracleNode)
+    obs = []
+    for eps in range(g.max_eps):
+        gs0 = g.init(jax.random.PRNGKey(1), starting_eps=eps)
+        calls = cg.UFCalls()
+        it = jx.Interp(callback_handler=calls.handler)
+        tr = jx.Traced(lambda s: g.rollout(s), gs0)
+        tr.run(it, tr.concrete_inputs(it))
+        seen = {}
+        bad = []
+        order = []
+        for c in calls.calls:
+            if c["guard"] is False:
+                continue
+            kind = c["tag"][len("oracle_step_"):]
+            seq = int(c["args"][0].item())
+            if seq != len(seen.setdefault(kind, [])):
+                bad.append(f"{kind}: step seq={seq} was the {len(seen[kind])}-th executed step of that node")
+            ai = 4
+            for p in sorted(nodes[kind].inputs.keys()):
+                pname = nodes[kind].inputs[p].output_node.name
+                for w in c["args"][ai].flat():
+                    if int(w) >= 0 and int(w) not in seen.get(pname, []):
+                        bad.append(f"{kind} step {seq} reads message {int(w)} of {pname} which has not been executed yet")
+                ai += 4
+            seen[kind].append(seq)
+        n_exec = sum(len(v) for v in seen.values())
+        o = Ob("instance: steps of a node execute in sequence order and every producer in a step's window runs strictly before that step", "unsat" if not bad else "sat", 0,
+               dict(inst=inst, eps=eps), detail=f"{n_exec} executed steps; {bad[:3]}", key="exec-order", queries=max(1, n_exec),
+               what=f"compiled rollout executes steps out of dependency/sequence order: {bad[:2]}")
+        if bad:
+            o.replayed = _replay_exec_order(inst, eps)
+        obs.append(o)
+    return obs
+
+
+def _replay_exec_order(inst, eps):
+    import jax
+    from vlib import cg, fixtures
+
+    try:
+        nodes, cgr, g = cg.build(inst, node_cls=fixtures.OracleNode)
+        fixtures.CALL_LOG.clear()
+        g.rollout(g.init(jax.random.PRNGKey(1), starting_eps=eps))
+        seen = {}
+        for tag, a in fixtures.CALL_LOG:
+            kind, seq = tag[len("oracle_step_"):], int(a[0])
+            if seq != len(seen.setdefault(kind, [])):
+                return True
+            seen[kind].append(seq)
+        return False
+    except BaseException:  # noqa
+        return None
+
+
 def configs(tier):
     out = []
     if tier == "quick":
@@ -163,10 +224,15 @@ def run(rep):
     rep.bounds = dict(shapes_W_N1_N2_E=sorted({(c["W"], c["N1"], c["N2"], c["E"]) for c in cfgs}), trainable_ext=1)
     rep.assumptions = ["input graph satisfies the documented Edge/Vertex contract: seq = index or -1 padding at the tail; seq_out consecutive; "
                        "seq_in non-decreasing, unreceived (-1) at the tail; edges only name existing sender vertices",
-                       "NOT decided here: that the supergraph monomorphism schedules each needed vertex exactly once with producers first "
-                       "(external supergraph library + numpy transcription in to_timings; not encodable symbolically)"]
+                       "NOT decided for all graphs: that the supergraph monomorphism schedules each needed vertex exactly once with producers first "
+                       "(external supergraph library + numpy transcription in to_timings; not encodable symbolically). On an enumerated family of compiled instances "
+                       "(incl. a 12:1 rate ratio on the uniform lax.scan path) the executed order is checked: sequence order per node, producers strictly before consumers"]
     obs = pmap("props.c07", "worker_window", cfgs, rep.tier)
     obs += pmap("props.c07", "worker_order", cg.instances(rep.tier, small=True)[:3], rep.tier)
+    oinst = cg.instances(rep.tier, small=True)[:3] + [dict(kind="two", rate1=5, rate2=60, window12=2, window21=1, ts_max=0.45, mode=m) for m in ("generational", "topological")]
+    oinst.append(dict(kind="three", rates=(10, 20, 15), windows=(2, 1, 2), ts_max=0.3, mode="mcs"))
+    rep.configs = list(rep.configs) + oinst
+    obs += pmap("props.c07", "worker_exec_order", oinst, rep.tier)
     try:
         from props import c07_attach
         obs += c07_attach.run_all(rep)
